@@ -167,6 +167,12 @@ def _memo(ck, prog, E):
     construct = SEQ_PATH + ":Sequence.deltaMax"
     flag = f.params()[1] if len(f.params()) > 1 else None
     body = f.body()
+    # the M-rules read deltaMax as: hit guards on the object's own two memo fields, then the regimes.  A further result table inside it (shared
+    # between objects, say) adds short-circuits that are neither; its soundness is MEMO-KEY's verdict, and the structure here is then not decided
+    from lcsa import memo as memo_mod
+    foreign = [t for t in memo_mod.find_sites(prog) if t.fnode is f.node]
+    ck.shape(not foreign, "deltaMax: besides self.dmax / self.seqDeltaMax it keeps results in %s; the hit-guard / regime structure is not the recognised one"
+             % sorted({t.table for t in foreign}), f.loc())
     # ---- M1: early returns of memo fields are guarded by a 'computed' test for every field they return
     hits = []
 
@@ -188,6 +194,14 @@ def _memo(ck, prog, E):
             break
         if not isinstance(st, (ast.Assign, ast.Expr)):
             break
+    # every returning arm of the leading chain must be a test of the object's own memo fields; a short-circuit on anything else (a table shared
+    # between objects, say) is a different memo, judged by MEMO-KEY, and makes the regime structure below unrecognisable
+    node = lead
+    while isinstance(node, ast.If):
+        if any(isinstance(x, ast.Return) for x in node.body):
+            ck.shape(any(is_self_attr(n) and n.attr in MEMO for n in ast.walk(node.test)),
+                     "deltaMax: a leading short-circuit that does not test the object's own memo fields (%s)" % unparse(node.test)[:60], f.loc(node))
+        node = node.orelse[0] if len(node.orelse) == 1 and isinstance(node.orelse[0], ast.If) else None
     lead_returns = set()
     node = lead
     while isinstance(node, ast.If):
@@ -304,6 +318,14 @@ def _memo(ck, prog, E):
     s = E.sum[f.key]
     methods = {g.name for g in prog.mod(SEQ).funcs.values() if g.cls == "Sequence"}
     reads = {r for r in s.self_reads if r not in methods}
+    # a field that is itself a result table with a complete key (MEMO-KEY: ok) is unobservable and does not count as changing state
+    mres = memo_mod.analyse(prog, E)
+    for r in sorted(reads - {"seq", "len", "chargePattern", "dmax", "seqDeltaMax"}):
+        vs = [x["verdict"] for x in mres if x["site"].scope == "object" and x["site"].cls == "Sequence" and x["site"].table.lstrip("_") == r.lstrip("_").replace("Sequence__", "")]
+        if vs and all(v == "ok" for v in vs):
+            reads.discard(r)
+        elif vs and not any(v == "violation" for v in vs):
+            ck.shape(False, "deltaMax reaches a read of the result table self.%s whose key MEMO-KEY cannot judge" % r, f.loc())
     ck.ob("MEMO-M3", construct, reads <= {"seq", "len", "chargePattern", "dmax", "seqDeltaMax"},
           expected="deltaMax (and everything it calls on the receiver) reads only construction-time state and the memo",
           found=sorted(reads), slot="reads", where=f.loc())
